@@ -75,6 +75,9 @@ func (b *vBuilder) expression(tag string, depth int) (parser.IExpressionContext,
 	nk := 10
 	if depth <= 0 {
 		nk = 5
+		if vParam("LEAN", 0) != 0 {
+			nk = 1 // deep trees: number leaves only (they are distinct, so operand order and nesting stay visible)
+		}
 	}
 	empty := parser.NewEmptyExpressionContext()
 	kind := 0 // below depth 0: number literals only (arguments of leaf-level calls)
@@ -148,6 +151,19 @@ func (b *vBuilder) expression(tag string, depth int) (parser.IExpressionContext,
 		return ec, e
 	default: // e op e, operator = any of the fourteen operator tokens
 		k := vChoose(tag+".op", len(vBinaryTokens))
+		if vParam("LEAN", 0) != 0 {
+			// deep trees: one operator token per grammar family (the five context classes)
+			seen := map[int]bool{}
+			var reps []int
+			for i := range vBinaryTokens {
+				if !seen[vBinaryFamily[i]] {
+					seen[vBinaryFamily[i]] = true
+					reps = append(reps, i)
+				}
+			}
+			vAssume(k < len(reps))
+			k = reps[k]
+		}
 		// SKEW (for deep trees): 1 = only the left operand is deep, 2 = only the right one
 		ld, rd := depth-1, depth-1
 		switch vParam("SKEW", 0) {
